@@ -725,6 +725,106 @@ func mapMutants(r *rand.Rand, st *cborStats) [][2]any {
 	return res
 }
 
+// goGasCost mirrors Cbor.gas_cost (the model's account of dagcbor's allocation budget); used only for the
+// budget probes below, whose inputs (10 MiB) are too large to evaluate in Coq.
+func goGasCost(n datamodel.Node) int64 {
+	switch n.Kind() {
+	case datamodel.Kind_Null:
+		return 0
+	case datamodel.Kind_Bool, datamodel.Kind_Int:
+		return 1
+	case datamodel.Kind_String:
+		s, _ := n.AsString()
+		return int64(len(s))
+	case datamodel.Kind_Bytes:
+		b, _ := n.AsBytes()
+		return int64(len(b))
+	case datamodel.Kind_Link:
+		l, _ := n.AsLink()
+		return int64(len(l.(cidlink.Link).Cid.Bytes())) + 1
+	case datamodel.Kind_List:
+		var c int64
+		for it := n.ListIterator(); !it.Done(); {
+			_, v, _ := it.Next()
+			c += 4 + goGasCost(v)
+		}
+		return c
+	case datamodel.Kind_Map:
+		var c int64
+		for it := n.MapIterator(); !it.Done(); {
+			k, v, _ := it.Next()
+			ks, _ := k.AsString()
+			c += int64(len(ks)) + 8 + goGasCost(v)
+		}
+		return c
+	}
+	return 1
+}
+
+// budgetProbes: values whose model gas cost is exactly at / just above the budget of 10485760.
+func budgetProbes() (res []map[string]any, problems []string) {
+	const budget = 10485760
+	listOf := func(n int, v datamodel.Node) datamodel.Node {
+		nb := basicnode.Prototype.List.NewBuilder()
+		la, _ := nb.BeginList(int64(n))
+		for i := 0; i < n; i++ {
+			la.AssembleValue().AssignNode(v)
+		}
+		la.Finish()
+		return nb.Build()
+	}
+	mapOf := func(k string, v datamodel.Node) datamodel.Node {
+		nb := basicnode.Prototype.Map.NewBuilder()
+		ma, _ := nb.BeginMap(1)
+		ma.AssembleKey().AssignString(k)
+		ma.AssembleValue().AssignNode(v)
+		ma.Finish()
+		return nb.Build()
+	}
+	str := func(n int) datamodel.Node { return basicnode.NewString(strings.Repeat("a", n)) }
+	h, _ := mh.Sum([]byte("x"), mh.SHA2_256, -1)
+	lnk := basicnode.NewLink(cidlink.Link{Cid: cid.NewCidV1(0x71, h)}) // 36 bytes: cost 37
+	probes := map[string]datamodel.Node{
+		"string(budget)":             str(budget),
+		"string(budget+1)":           str(budget + 1),
+		"bytes(budget)":              basicnode.NewBytes(make([]byte, budget)),
+		"bytes(budget+1)":            basicnode.NewBytes(make([]byte, budget+1)),
+		"list(null x budget/4)":      listOf(budget/4, datamodel.Null),
+		"list(null x budget/4+1)":    listOf(budget/4+1, datamodel.Null),
+		"list(int x budget/5)":       listOf(budget/5, basicnode.NewInt(7)),
+		"list(int x budget/5+1)":     listOf(budget/5+1, basicnode.NewInt(7)),
+		"map{abc: string(budget-11)}": mapOf("abc", str(budget-11)),
+		"map{abc: string(budget-10)}": mapOf("abc", str(budget-10)),
+		"list(link x 255750)":        listOf(255750, lnk), // 255750*41 = 10485750
+		"list(link x 255751)":        listOf(255751, lnk), // 255751*41 = 10485791 > budget
+		"list[list[string(k), string(k)]], 12+2k = budget":   listOf(1, listOf(2, str((budget-12)/2))),
+	}
+	var names []string
+	for k := range probes {
+		names = append(names, k)
+	}
+	sort.Strings(names)
+	for _, name := range names {
+		n := probes[name]
+		cost := goGasCost(n)
+		b, err := dagcborEncode(n)
+		if err != nil {
+			problems = append(problems, "budget probe "+name+": encode error "+err.Error())
+			continue
+		}
+		o := observeDecode(b)
+		want := "ok"
+		if cost > budget {
+			want = "rej"
+		}
+		res = append(res, map[string]any{"probe": name, "model_gas_cost": cost, "encoded_len": len(b), "go_decode": o.kind})
+		if o.kind != want {
+			problems = append(problems, fmt.Sprintf("budget probe %s: model gas cost %d (budget %d) predicts %s, dagcbor.Decode -> %s %s", name, cost, budget, want, o.kind, o.err))
+		}
+	}
+	return
+}
+
 func init() {
 	gens["CBOR"] = func(o genOpts) error {
 		nvals, nmut, shards := 1500, 1500, 6
@@ -836,6 +936,8 @@ func init() {
 				addDec(b, "mut:"+cls)
 			}
 		}
+		probes, pp := budgetProbes()
+		goProblems = append(goProblems, pp...)
 		write := func(prefix, typ, fn string, cases []string, extraPrint string) error {
 			per := (len(cases) + shards - 1) / shards
 			for k := 0; k < shards; k++ {
@@ -869,7 +971,7 @@ func init() {
 			"maps_total": st.MapsTotal, "maps_inserted_out_of_order": st.MapsUnsorted, "max_map_len": st.MaxMapLen,
 			"max_list_len": st.MaxListLen, "strings_with_invalid_utf8": st.InvalidUTF8,
 			"decode_input_classes": classes, "decode_outcomes_go": outcomes, "go_problems": goProblems, "samples": samples,
-			"repo_path_checks": repoChecks,
+			"repo_path_checks": repoChecks, "budget_probes": probes,
 		})
 	}
 }
